@@ -32,7 +32,7 @@ func collectorGuardSpec() *guardSpec {
 func init() {
 	register(&propDef{
 		ID:          "C12",
-		Explanation: "Necessary structural conditions for race-free multi-client collection and clean shutdown, decided on SSA: (1) guarded-by/balanced lockset for CollectingProcess.clients / templatesMap / numOfRecordsReceived and the template fields under CollectingProcess.mutex (W for stores, map updates, deletes; R for reads) in every calling context incl. closures and the timer-condition callback; (2) R-WG: every go statement of pkg/collector is dominated by wg.Add and its goroutine defers wg.Done at entry; Stop closes stopChan and then waits on the wait group; (3) registration pairing: every clients[k]=... is followed on all paths by a deferred delete(clients,k) of the same key (in the function or in the goroutine it starts); (4) stop observability: every blocking select reachable from a tracked goroutine has a receive case on a channel of the least stop-closed set S (stopChan; channels closed by a deferred close in a goroutine whose own selects are S-guarded), every bare receive is on S, and the only bare send is the delivery on messageChan (exempt by the property's proviso); (5) delivery order: sends on messageChan occur only in decodePacket, which is called synchronously (no go statement in between) from the per-connection reader and the per-address UDP client. (6) R-STOP.netread: a tracked goroutine that blocks on the network (Accept/Read/ReadFull/Peek...) is ended by its spawner closing the connection/listener after a wait that observes stop - decided in the stop-closed fixpoint without using what the goroutine closes itself; the handler that waits for stop calls no blocking method of the connection; (7) R-OWNER.datagram-buffer: the slice handed to the per-client goroutine is allocated or copied per datagram. Not decided: exactly-once/in-order delivery under all schedules, deadlock freedom with a stalled consumer, promptness, kernel socket release. Later additions: the stored template list is never rewritten in place; the stream framing rules of C11 (a short read loses order / messages).",
+		Explanation: "Necessary structural conditions for race-free multi-client collection and clean shutdown, decided on SSA: (1) guarded-by/balanced lockset for CollectingProcess.clients / templatesMap / numOfRecordsReceived and the template fields under CollectingProcess.mutex (W for stores, map updates, deletes; R for reads) in every calling context incl. closures and the timer-condition callback; (2) R-WG: every go statement of pkg/collector is dominated by wg.Add and its goroutine defers wg.Done at entry; Stop closes stopChan and then waits on the wait group; (3) registration pairing: every clients[k]=... is followed on all paths by a deferred delete(clients,k) of the same key (in the function or in the goroutine it starts); (4) stop observability: every blocking select reachable from a tracked goroutine has a receive case on a channel of the least stop-closed set S (stopChan; channels closed by a deferred close in a goroutine whose own selects are S-guarded), every bare receive is on S, and the only bare send is the delivery on messageChan (exempt by the property's proviso); (5) delivery order: sends on messageChan occur only in decodePacket, which is called synchronously (no go statement in between) from the per-connection reader and the per-address UDP client. (6) R-STOP.netread: a tracked goroutine that blocks on the network (Accept/Read/ReadFull/Peek...) is ended by its spawner closing the connection/listener after a wait that observes stop - decided in the stop-closed fixpoint without using what the goroutine closes itself; the handler that waits for stop calls no blocking method of the connection; (7) R-OWNER.datagram-buffer: the slice handed to the per-client goroutine is allocated or copied per datagram. Not decided: exactly-once/in-order delivery under all schedules, deadlock freedom with a stalled consumer, promptness, kernel socket release. Later additions: the stored template list is never rewritten in place; the stream framing rules of C11 (a short read loses order / messages). Round-five additions: methods of lock-bearing structs have pointer receivers; registry InfoElements (shared by all connection goroutines without a lock) are never written.",
 		Assume:      []string{"sync / channel semantics of the Go memory model", "net.Listener.Accept and Conn.Read return once the owner closes the listener/connection (owner closes after <-stopChan)", "the DTLS listener (outside C12's {tcp,udp,tls}) is reported as information only"},
 		Run:         runC12,
 	})
